@@ -1,6 +1,7 @@
 package main
 
 import (
+	"sort"
 	"fmt"
 	"os"
 	"go/token"
@@ -1328,6 +1329,31 @@ func (x *fx) runDefers() {
 	}
 }
 
+// returnOrdinal: 1-based position of a return statement among the function's
+// return statements in source order (0 for synthesized returns).
+func (x *fx) returnOrdinal(r *ssa.Return) int {
+	if !r.Pos().IsValid() {
+		return 0
+	}
+	seen := map[token.Pos]bool{}
+	var ps []token.Pos
+	for _, b := range x.fn.Blocks {
+		for _, in := range b.Instrs {
+			if rr, ok := in.(*ssa.Return); ok && rr.Pos().IsValid() && !seen[rr.Pos()] {
+				seen[rr.Pos()] = true
+				ps = append(ps, rr.Pos())
+			}
+		}
+	}
+	sort.Slice(ps, func(a, b int) bool { return ps[a] < ps[b] })
+	for k, p := range ps {
+		if p == r.Pos() {
+			return k + 1
+		}
+	}
+	return 0
+}
+
 // ret: check postconditions at a return site.
 func (x *fx) ret(i *ssa.Return) {
 	x.retCount++
@@ -1356,6 +1382,21 @@ func (x *fx) ret(i *ssa.Return) {
 		return x.instrEnv(i).look(name)
 	}
 	env.old = x.paramEnv(x.entryMem)
+	// assertions attached to this return statement (assert return=N, N in source order)
+	if len(x.c.Asserts) > 0 {
+		ord := x.returnOrdinal(i)
+		for k, cl := range x.c.Asserts {
+			if cl.Kind == "assert:return$" && cl.Loop == ord {
+				g, skip := x.evalEnsures(cl.E, env)
+				if skip {
+					continue
+				}
+				if o := x.oblige("assert", fmt.Sprintf("return#%d:%s", ord, clauseLabel(cl, k)), g, fmt.Sprintf("assertion at return #%d: %s", ord, cl.Src)); o != nil {
+					o.Src, o.Line = cl.Src, cl.Line
+				}
+			}
+		}
+	}
 	// vacuity canary: this return must be reachable (placed before the
 	// postconditions, which are assumed once checked)
 	x.obs = append(x.obs, &Oblig{Fn: x.c.Pkg + "." + x.c.Name, Name: fmt.Sprintf("%s.%s#vacuity:ret%d", x.pkgShort(), x.cname(), x.retCount), Kind: "canary", PC: x.curPC, Goal: "false", NSteps: len(x.steps), Expect: "sat", Desc: "return is reachable under the contract", fx: x})
